@@ -77,6 +77,8 @@ def run_case(case):
             if n.get("mc_off"):
                 c.node.allow_multicast = False
                 c.node.node_address = n["addr"]
+            if n.get("mc_level") is not None and not n.get("mc_off"):
+                c.node.multicast_level = n["mc_level"]  # which level's multicasts a node listens to must not change routing
             if n["addr"] == src:
                 slow = c.mcu.spi_base
         net.start()
@@ -249,6 +251,16 @@ def _enum(quick):
                             continue
                         yield {"src": src, "dst": dst, "type": typ, "msg": "c13a" * (hops % 4), "tx_timeout": 10, "route_timeout": 40,
                                "fault": f, "nodes": _topology(src, dst)}
+        # every node listens to another level's multicasts (multicast_level raised or lowered): routing and NETWORK_ACKs as before
+        for hops, (s, d) in ROUTES.items():
+            for rev in (False, True):
+                src, dst = (d, s) if rev else (s, d)
+                for shift in (1, 2, -1):
+                    nodes = _topology(src, dst)
+                    for n in nodes:
+                        n["mc_level"] = max(0, min(4, netaddr.level(n["addr"]) + shift))
+                    for typ in (65, 0):
+                        yield {"src": src, "dst": dst, "type": typ, "msg": "c13e", "tx_timeout": 10, "route_timeout": 40, "fault": None, "nodes": nodes}
         # delayed first-hop accept: the first k attempts of the origin's data frame are lost, route_timeout swept
         for hops in (4, 6, 8):
             s, d = ROUTES[hops]
